@@ -26,14 +26,14 @@ fn do_query<F: Fl>(w: &World<F>, u: K) -> Value {
     let r = guarded(|| {
         let _ = F::obs(w.node(u), &w.keys);
         let _ = w.project();
-        let q = Query { kind: Kind::Bfs, entry: Entry::SearchPath, target: None, transpose: false, meth: Meth::ForEach, repeat: false };
+        let q = Query { kind: Kind::Bfs, entry: Entry::SearchPath, target: None, transpose: false, meth: Meth::ForEach, repeat: false, late: false };
         let mut n = 0usize;
         let mut cb = |_: K, _: K, _: EV| {
             n += 1;
             true
         };
         let _ = F::search(w.node(u), &q, &mut cb);
-        let q2 = Query { kind: Kind::Dfs, entry: Entry::SearchCycle, target: None, transpose: F::DIRECTED, meth: Meth::Plain, repeat: false };
+        let q2 = Query { kind: Kind::Dfs, entry: Entry::SearchCycle, target: None, transpose: F::DIRECTED, meth: Meth::Plain, repeat: false, late: false };
         let mut cb2 = |_: K, _: K, _: EV| true;
         let _ = F::search(w.node(u), &q2, &mut cb2);
         let _ = F::g_get(&w.graph, u).map(|h| F::key(&h));
@@ -112,7 +112,7 @@ fn run_case<F: Fl>(case: &Value, meth: Meth, trace: bool) -> Run {
     } else {
         let k = Kind::parse(&kind);
         let entry = if cyc { Entry::SearchCycle } else if k.is_order() { Entry::SearchNodes } else { Entry::SearchPath };
-        let q = Query { kind: k, entry, target: None, transpose: dir_in, meth, repeat: false };
+        let q = Query { kind: k, entry, target: None, transpose: dir_in, meth, repeat: false, late: false };
         let rr = guarded(|| F::search(w.node(root), &q, &mut body));
         match rr {
             Guarded::Ok(Ok(s)) => {
